@@ -16,7 +16,8 @@ theorem log_is_sequential (sleep allow : Int) (jobs : List Job) (sched : List Na
     let c := run sys (init sleep allow jobs) sched
     ∃ g, replay sleep allow {} c.shared.events = some g ∧
       (c.shared.writer = none → c.shared.nextOpen = g.nextOpen ∧ c.shared.count = g.count) := by
-  sorry
+  obtain ⟨g, hg, hnone, _⟩ := (inv_run sleep allow jobs sched).data
+  exact ⟨g, hg, hnone⟩
 
 /-- a Check returns true only through a logged success with its own timestamp; the number of checks that have
     returned true never exceeds the number of logged successes -/
@@ -24,39 +25,49 @@ theorem true_means_logged (sleep allow : Int) (jobs : List Job) (sched : List Na
     let c := run sys (init sleep allow jobs) sched
     (∀ l ∈ c.locals, ∀ t, l.job = .check t → l.pc = .done (some true) → ∃ b, Ev.success t b ∈ c.shared.events) ∧
     (c.locals.filter fun l => l.pc == .done (some true)).length ≤ (c.shared.events.filter Ev.isSuccess).length := by
-  sorry
+  have h := inv_run sleep allow jobs sched
+  refine ⟨?_, ?_⟩
+  · intro l hmem t hjob hpc
+    obtain ⟨i, hi⟩ := List.mem_iff_getElem?.mp hmem
+    exact h.logged i l t hi hjob (by rw [hpc]; rfl)
+  · rw [← List.countP_eq_length_filter, ← List.countP_eq_length_filter]
+    refine Nat.le_trans (List.countP_mono_left ?_) h.counted
+    intro l _ hl
+    have : l.pc = .done (some true) := by simpa using hl
+    simp [isT, this, T]
 
 /-- SENTENCE 1 on accepted logs: after an arming at `ta` (SleepStart, or a budget-exhausting success), every success
     logged before the next arming has a timestamp ≥ ta + sleep — whatever callbacks fired, whatever the schedule -/
 theorem accepted_sleep_respected (sleep allow : Int) (pre mid : List Ev) (arm : Ev) (t : Int) (b : Bool) (g : Gate)
     (harm : arm.isArming = true) (hmid : ∀ e ∈ mid, e.isArming = false)
     (hacc : replay sleep allow {} (pre ++ [arm] ++ mid ++ [.success t b]) = some g) :
-    arm.time + sleep ≤ t := by
-  sorry
+    arm.time + sleep ≤ t :=
+  accepted_sleep_respected' sleep allow pre mid arm t b g harm hmid hacc
 
 /-- SENTENCE 2 on accepted logs: the successes since the last arming (the gate's count) never reach max(1, budget) -/
 theorem accepted_budget (sleep allow : Int) (log : List Ev) (g : Gate) (hacc : replay sleep allow {} log = some g) :
     0 ≤ g.count ∧ g.count < max 1 allow ∧
-    g.count = ((log.reverse.takeWhile fun e => !e.isArming).length : Int) := by
-  sorry
+    g.count = ((log.reverse.takeWhile fun e => !e.isArming).length : Int) :=
+  accepted_budget' sleep allow log g hacc
 
 /-- the schedule-independent bound the harness monitors: if every timestamp of a run lies inside one sleep period,
     at most max(1, budget) checks succeed in total -/
 theorem one_period_budget (sleep allow lo : Int) (log : List Ev) (g : Gate) (hs : 0 < sleep)
     (htimes : ∀ e ∈ log, lo ≤ e.time ∧ e.time < lo + sleep) (hacc : replay sleep allow {} log = some g) :
     ((log.filter Ev.isSuccess).length : Int) ≤ max 1 allow := by
-  sorry
+  have _ := hs
+  rcases one_period_inv sleep allow lo log htimes g hacc with ⟨_, h2, h3⟩ | ⟨L, _, _, h3⟩ <;> omega
 
 /-- mutual exclusion of the RWMutex in the model, and no deadlock -/
 theorem rwmutex_exclusive (sleep allow : Int) (jobs : List Job) (sched : List Nat) :
     let c := run sys (init sleep allow jobs) sched
-    (c.shared.writer.isSome → c.shared.readers = 0) := by
-  sorry
+    (c.shared.writer.isSome → c.shared.readers = 0) :=
+  (inv_run sleep allow jobs sched).wr
 
 theorem never_deadlocks (sleep allow : Int) (jobs : List Job) (sched : List Nat) :
     let c := run sys (init sleep allow jobs) sched
-    quiescent c = false → ∃ i l, c.locals[i]? = some l ∧ (step i c.shared l).isSome := by
-  sorry
+    quiescent c = false → ∃ i l, c.locals[i]? = some l ∧ (step i c.shared l).isSome :=
+  no_deadlock sleep allow _ (inv_run sleep allow jobs sched)
 
 /-- non-vacuity: budget 1, two callers racing past the read-locked test; the loser is refused under the write lock -/
 example : (run sys (init 100 1 [.check 5, .check 6]) [0,0, 1,1, 0,1, 0,0,0,0,0,0,0,0, 1,1,1,1]).locals.map (·.pc)
